@@ -222,7 +222,9 @@ CLAIMS = {
         note="EFFECT theorems (Thm/C13Effect.lean, for every state satisfying the C12 invariant, i.e. every state reachable from a "
              "parsed document): after insertBefore/appendChild the parent's child ids are its former children without the new child, "
              "in order, with the new child in front of the reference child / at the end, and the new child reports that parent; after "
-             "removeChild the parent keeps its other children in order and the removed subtree is a detached root without parent. "
+             "removeChild the parent keeps its other children in order and the removed subtree is a detached root without parent; after "
+             "replaceChild(new, old) with different nodes old is handed back and the children are the former ones without new, in order, "
+             "with new where old stood. "
              "normalize: the element afterwards reads exactly as before (same marks, same characters in the same places), is in "
              "normal form (no empty Text node, no Text node after one it could have been appended to) and no node is lost or "
              "duplicated; a successful data edit stores the validated outcome and changes no other node (Thm/C15 data_edit_effect). "
